@@ -148,7 +148,7 @@ func run(o hx.RunOpts) error {
 	}
 	corpus(s)
 	p := hx.NewPrng(o.Seed)
-	n := o.N(3000, 30000)
+	n := o.N(3000, 15000)
 	for i := 0; i < n; i++ {
 		randomCase(s, p.Fork())
 	}
